@@ -3,40 +3,67 @@
 (* Use A for C06 / C14 (design level, symbolic AEAD):                      *)
 (*   Seal(key, iv, aad, pt) is an uninterpreted term; Open recovers pt iff *)
 (*   key, iv and aad are the ones sealed with.                             *)
+(* A key is NAMED by a call as (context, key name): the KMS context (a     *)
+(* keys directory) and the name inside it.  An Encryptor object is         *)
+(* stateful: init_kms_backend binds a KMS to a context and the KMS then    *)
+(* resolves names in the context it was INITIALISED with (basic_kms        *)
+(* ignores the per-call context).  The shipped script re-initialises on    *)
+(* every call (INITKMS = "each"); INITKMS = "once" is the variant in which *)
+(* a reused object keeps its first context - the counterexample to         *)
+(* DecryptsToFirmware that needs a history of two calls.                   *)
 (* Encrypt: the KMS draws an IV (GEN = "fresh": never one used before with *)
 (* this key - the ASSUMPTION under which C14 holds; GEN = "any" shows the  *)
 (* counterexample), seals with the hard-coded AAD literal; the script      *)
 (* publishes iv and protected header.  Invariants: what is published       *)
-(* decrypts (so the literal must equal Enc_structure of the published      *)
-(* header, and the published IV must be the one used), IVs per key are     *)
-(* pairwise distinct.  generate-info: byte-level split/join of the blob.   *)
+(* decrypts UNDER THE NAMED KEY (so the literal must equal Enc_structure   *)
+(* of the published header, the published IV must be the one used and the  *)
+(* key used must be the one the call names), IVs per key are pairwise      *)
+(* distinct.  generate-info: byte-level split/join of the blob.            *)
 (***************************************************************************)
-EXTENDS Integers, Sequences, FiniteSets, TLC
+EXTENDS Integers, Sequences, FiniteSets, TLC, Json
 
-CONSTANTS KEYS, IVS, PTS, GEN, LITERAL, MAXOPS
+CONSTANTS CTXS, NAMES, IVS, PTS, GEN, LITERAL, INITKMS, MAXOPS, EMIT
 
+KEYS == CTXS \X NAMES                  \* every (context, name) holds its own key bytes
 Seal(k, iv, aad, pt) == [k |-> k, iv |-> iv, aad |-> aad, pt |-> pt]
 Open(k, iv, aad, c) == IF c.k = k /\ c.iv = iv /\ c.aad = aad THEN c.pt ELSE "fail"
 EncStructure(prot) == <<"Encrypt", prot, "">>
 Published == "a10103"                  \* protected header {1: 3} as emitted
 
-VARIABLES used, arts
-vars == <<used, arts>>
-Init == used = [k \in KEYS |-> {}] /\ arts = <<>>
+VARIABLES used, arts, bound, hist
+\* bound: the context the current Encryptor object's KMS is initialised with ("none" for a new object)
+vars == <<used, arts, bound, hist>>
+Init == used = [k \in KEYS |-> {}] /\ arts = <<>> /\ bound = "none" /\ hist = <<>>
 
-Encrypt(k, pt, iv) ==
+\* a new Encryptor object (the CLI makes one per process; a library user may keep one)
+NewObject ==
+  /\ bound # "none"
+  /\ bound' = "none"
+  /\ hist' = Append(hist, [op |-> "new"])
+  /\ UNCHANGED <<used, arts>>
+
+Encrypt(ctx, name, pt, iv) ==
+  LET b == IF INITKMS = "each" \/ bound = "none" THEN ctx ELSE bound    \* init_kms_backend
+      k == <<b, name>>                                                  \* the key the KMS resolves
+      aadUsed == IF LITERAL = "matches" THEN EncStructure(Published) ELSE EncStructure("a10101") IN
   /\ Len(arts) < MAXOPS
   /\ GEN = "fresh" => iv \notin used[k]
-  /\ LET aadUsed == IF LITERAL = "matches" THEN EncStructure(Published) ELSE EncStructure("a10101") IN
-     arts' = Append(arts, [key |-> k, pt |-> pt, ivpub |-> iv, prot |-> Published, c |-> Seal(k, iv, aadUsed, pt)])
+  /\ bound' = b
+  /\ arts' = Append(arts, [key |-> <<ctx, name>>, pt |-> pt, ivpub |-> iv, prot |-> Published,
+                           c |-> Seal(k, iv, aadUsed, pt)])
   /\ used' = [used EXCEPT ![k] = @ \cup {iv}]
+  /\ hist' = Append(hist, [op |-> "enc", ctx |-> ctx, name |-> name])
 
-Next == \E k \in KEYS, pt \in PTS, iv \in IVS : Encrypt(k, pt, iv)
+EncryptAny == \E ctx \in CTXS, name \in NAMES, pt \in PTS, iv \in IVS : Encrypt(ctx, name, pt, iv)
+Next == NewObject \/ EncryptAny
 Spec == Init /\ [][Next]_vars
 
 DecryptsToFirmware == \A i \in 1..Len(arts) :
    Open(arts[i].key, arts[i].ivpub, EncStructure(arts[i].prot), arts[i].c) = arts[i].pt
-IvsPairwiseDistinctPerKey == \A i, j \in 1..Len(arts) : (i # j /\ arts[i].key = arts[j].key) => arts[i].ivpub # arts[j].ivpub
+IvsPairwiseDistinctPerKey == \A i, j \in 1..Len(arts) : (i # j /\ arts[i].c.k = arts[j].c.k) => arts[i].ivpub # arts[j].ivpub
+
+\* Use B: session histories (which object, which context, which name) for replay into the real Encryptor
+Emit == (EMIT /\ Len(arts) = MAXOPS) => PrintT("SCN " \o ToJson(hist))
 
 \* generate-info at byte level: blob = iv(12) || tag(16) || ciphertext ; content = tag || ciphertext
 Blob(n) == [i \in 1..n |-> (i * 7) % 256]
